@@ -19,7 +19,7 @@ def fam(name, nf, depth, chunk=64, lru=False, shards=None, bias=True, **over):
 
 
 # category -> property
-CAT2PROP = {"data": "C01", "counters": "C12", "evict": "C13", "hang": "C14"}
+CAT2PROP = {"data": "C01", "counters": "C12", "evict": "C13", "hang": "C14", "fresh": "C03"}
 # a line no action explains: attribute by what kind of step it was
 STRUCT2PROP = {"read": "C01", "get": "C01", "commit": "C01", "abort": "C01", "chunk": "C01", "close": "C01",
                "store": "C13", "scan": "C13", "jremove": "C13", "ensure": "C13", "evstep": "C13",
@@ -82,6 +82,9 @@ def trap_families(backend):
     t.append(dict(fam("trap_%s_reader" % backend, "NF_read", 16, Backend=backend, NKeys=1, ShardOf="<- Shard1", NClients=3,
                       MaxVer=2, MaxChunks=2, MaxHandles=2, MaxObj=6, Janitor=False, FailStores=True, UpdVals=set(),
                       Deletes=True), traps={5, 6, 7, 12, 14}))
+    t.append(dict(fam("trap_%s_expiry_while_waiting" % backend, "NF_read", 14, Backend=backend, NKeys=2, ShardOf="<- Shard11", NClients=2,
+                      MaxVer=2, MaxChunks=1, MaxHandles=2, MaxObj=5, Janitor=True, FailStores=False, UpdVals=set(),
+                      Deletes=False), traps={16}, prefix_suffix=[{"a": "expire", "k": 1}, {"a": "expire", "k": 2}]))
     t.append(dict(fam("trap_%s_evict" % backend, "NF_evict2", 18, chunk=1 << 20, lru=True, Backend=backend, NKeys=3,
                       ShardOf="<- Shard112", NClients=1, MaxVer=2, MaxChunks=2, MaxHandles=0, MaxObj=6, InitLimit=3,
                       Limits={3}, Janitor=True, UseClock=True, Weight=100, FailStores=False, UpdVals=set(), Deletes=True),
@@ -114,10 +117,10 @@ def run_traps(f, cap, seed, timeout=60, workers=8):
         for h in hs:
             tail = dict(h[-1]) if h else {}
             suffix = []
-            for stp in SUFFIX:
+            for stp in list(f.get("prefix_suffix", [])) + SUFFIX:
                 if stp.get("p", 0) > consts["NClients"] or stp.get("h", 0) > consts["MaxHandles"]:
                     continue
-                x = {"a": stp["a"], "p": stp.get("p", 0), "k": 0, "n": 0, "f": 0, "h": stp.get("h", 0), "e": 0, "l": 0, "r": 0,
+                x = {"a": stp["a"], "p": stp.get("p", 0), "k": stp.get("k", 0), "n": 0, "f": 0, "h": stp.get("h", 0), "e": 0, "l": 0, "r": 0,
                      "la": tail.get("la", []), "clk": tail.get("clk", 1)}
                 suffix.append(x)
             hists.append(h + suffix)
@@ -233,3 +236,21 @@ def mc(name, invariants, workers=16, timeout=900, constraint="ClockBound", view=
     r["name"] = name
     r["constants"] = {k: (sorted(v) if isinstance(v, (set, frozenset)) else v) for k, v in c.items()}
     return r
+
+
+def c03_runs(tier, seed):
+    """Cache-level part of C03: a lookup reports an entry stale exactly if its lifetime has elapsed, also when the lookup
+    had to wait for a shard lock while the lifetime ran out (targeted generation, trap 16)."""
+    from props.cachecommon import confirmed
+    out = {"violations": [], "notes": [], "coverage": {"cache_level_families": []}, "traces": 0}
+    for be in ("memory", "file"):
+        tf = [t for t in trap_families(be) if "expiry" in t["name"]][0]
+        r = run_traps(tf, 8 if tier == "quick" else 60, seed, timeout=25 if tier == "quick" else 300, workers=5)
+        out["traces"] += r["behaviours"]
+        out["coverage"]["cache_level_families"].append({k: r[k] for k in ("family", "behaviours", "lines", "consumed")})
+        for p in r["problems"]:
+            if "C03" in p["props"] and confirmed(tf, p, "C03"):
+                out["violations"].append(vlib.save_replay("C03", "%s-%s-seed%d.json" % (tf["name"], vlib.digest(p["replay_input"]), seed),
+                                                          {"kind": "cachedrv", "problem": {k: p.get(k) for k in ("props", "cats", "line", "event", "context", "model")},
+                                                           "input": p["replay_input"]}))
+    return out
